@@ -70,3 +70,13 @@ func isPrefixRecords(got, ref []byte) bool {
 	}
 	return true
 }
+
+// lockSwarm: every third run of a check with concurrent requests also makes DVID's own mutex
+// acquisitions scheduling points (Knobs.LockYield); decided by the run index so that the
+// scenario's seeded draws are the same with and without it.
+func lockSwarm(sc *drv.Scenario, idx int) *drv.Scenario {
+	if idx%3 == 2 {
+		sc.Knobs.LockYield = true
+	}
+	return sc
+}
